@@ -42,22 +42,27 @@ RULE = ("generic classes: every prime 5 <= p <= 61 (thorough: <= 251), the curve
         "(every prefix byte, x >= p, non-residue x, wrong y, lengths 0/1/31/34/64/66). A case is non-trivial "
         "unless all its operands are infinity / zero; distinct = distinct (operation, input) pairs")
 CLAUSES = {
-    "FieldElement + - * / are the field operations of ZMod p (all primes)":
-        "proved (field_ops, field_div, field_pow, powmod_spec)",
+    "FieldElement + - * / ** are the field operations of ZMod p (every prime p)":
+        "proved (powmod_spec, field_ops, field_div, field_div_mul, field_pow; pow_zero_observation records O03c)",
     "Point.__add__ is a commutative group law on every non-singular curve over every prime p > 3 (closure, "
-    "associativity, commutativity, identity, inverses; incl. opposite / doubling / y = 0 cases)":
-        "proved (add_closed, add_comm, add_assoc, add_inf, add_neg, add_is_group_law)",
-    "Point.__rmul__ is scalar multiplication, P + P = 2P":
-        "proved (mul_is_smul, mul_add, mul_mul, double_eq_two_mul)",
-    "results equal an independent implementation's": "proved against Mathlib's WeierstrassCurve.Affine.Point group "
-        "(add_is_group_law, mul_is_smul); model tied to the code by correspondence",
-    "secp256k1: (a+b)G = aG + bG, a(bG) = (ab)G for all integers": "proved (secp_add_hom, secp_mul_assoc)",
-    "secp256k1: nQ = infinity, (k mod n)Q = kQ": "proved for Q in <G> (secp_order, secp_mod); for arbitrary curve points "
-        "it needs the group order (Hasse bound), which Mathlib lacks: correspondence-only there",
-    "P + (-P) = infinity, P + P = 2P, P + int = P + int*G": "proved (secp_add_neg, secp_double, secp_add_int)",
-    "SEC / x-only encodings round-trip": "proved (sec_roundtrip, xonly_roundtrip)",
-    "byte strings that do not encode a curve point are rejected": "proved (parse_sound, parse_rejects_x_ge_p, "
-        "parse_rejects_nonresidue, parse_prefix_length)",
+    "associativity, commutativity, identity, inverses; infinity / opposite / chord / tangent / y = 0 cases)":
+        "proved (add_closed, add_comm, add_assoc, add_inf, add_neg, add_double_y_zero, add_is_group_law, on_curve_iff)",
+    "Point.__rmul__ is scalar multiplication; P + P = 2P":
+        "proved (mul_is_smul, mul_add, mul_mul, double_eq_two_mul, mul_mod_order)",
+    "results equal an independent implementation's": "proved: the model equals Mathlib's group law on "
+        "WeierstrassCurve.Affine.Point (add_is_group_law, mul_is_smul); model tied to the code by correspondence",
+    "secp256k1: P and N prime, curve non-singular, G on the curve of order exactly N": "proved (secp_setup, secp_scalar_inj)",
+    "secp256k1: (a+b)G = aG + bG, a(bG) = (ab)G for all integers": "proved (secp_add_hom, secp_mul_assoc, secp_hom_tors)",
+    "secp256k1: nQ = infinity, (k mod n)Q = kQ": "proved for Q in <G> (secp_order, secp_mod, secp_mod_nat); for arbitrary "
+        "curve points the order needs the Hasse bound, which Mathlib lacks: correspondence-only there",
+    "P + (-P) = infinity, P + P = 2P, P + int = P + int*G, group axioms of S256Point.__add__":
+        "proved for every curve point (secp_add_neg, secp_double, secp_add_int, secp_add_group)",
+    "x(-R) = x(R), parity of y flips, even_point": "proved (secp_neg_xy, secp_no_two_torsion, secp_even_point)",
+    "SEC / x-only encodings round-trip for every point": "proved (sec_roundtrip, sec_defined, xonly_roundtrip, "
+        "xonly_determines, sqrt_correct, constructor_check)",
+    "byte strings that do not encode a curve point are rejected": "proved (parse_sound, parse_sound_coords, "
+        "parse_sec_canonical, parse_xonly_canonical, parse_rejects_x_ge_p, parse_rejects_nonresidue, nonresidue_test, "
+        "parse_prefix_length; parse_xonly_zero records O03d)",
 }
 TRUSTED = ["Mathlib's definition of the group law on WeierstrassCurve.Affine.Point is the specification of "
            "'the group law'"]
@@ -561,13 +566,13 @@ def run(ctx):
 
     # ---- secp256k1
     cat = scalar_catalogue()
-    rnd_scalars = [rng.getrandbits(256) for _ in range(ctx.n(40, 400))] + \
-                  [rng.getrandbits(rng.choice([8, 64, 128, 255, 257, 300, 520])) for _ in range(ctx.n(20, 200))] + \
+    rnd_scalars = [rng.getrandbits(256) for _ in range(ctx.n(120, 1200))] + \
+                  [rng.getrandbits(rng.choice([8, 64, 128, 255, 257, 300, 520])) for _ in range(ctx.n(40, 400))] + \
                   [-rng.getrandbits(rng.choice([8, 200, 256, 300])) for _ in range(ctx.n(20, 200))]
     scalars = cat + rnd_scalars
     gtok = f"{GX} {GY}"
     # points kG (computed on the real code, spread over the cores)
-    pk = [1, 2, 3, N - 1, N - 2, (N - 1) // 2, (N + 1) // 2] + [rng.randrange(1, N) for _ in range(ctx.n(25, 120))]
+    pk = [1, 2, 3, N - 1, N - 2, (N - 1) // 2, (N + 1) // 2] + [rng.randrange(1, N) for _ in range(ctx.n(50, 240))]
     coords = pmap(_smul_G, pk, workers=ctx.workers)
     pts = [None] + coords
     negs = [None if c is None else (c[0], P - c[1]) for c in pts]
@@ -612,18 +617,18 @@ def run(ctx):
 
     # identities on the real code
     ident = [(a, b) for a in cat[:12] for b in (cat[3], cat[5], cat[12])]
-    ident += [(rng.choice(scalars), rng.choice(scalars)) for _ in range(ctx.n(60, 600))]
+    ident += [(rng.choice(scalars), rng.choice(scalars)) for _ in range(ctx.n(200, 2000))]
     ident += [(a, N - a) for a in (1, 2, rng.randrange(N))] + [(a, -a) for a in (1, rng.randrange(N))]
     for a, b in ident:
         preds.append(("secp_add_hom", {"a": a, "b": b}))
     for a, b in ident[:: 2]:
         preds.append(("secp_mul_assoc", {"a": a, "b": b}))
-    for k in cat + [rng.choice(rnd_scalars) for _ in range(ctx.n(20, 200))]:
+    for k in cat + [rng.choice(rnd_scalars) for _ in range(ctx.n(60, 600))]:
         preds.append(("secp_order", {"k": k, "j": rng.choice(pk)}))
         preds.append(("secp_neg_double", {"k": k}))
-    for _ in range(ctx.n(40, 400)):
+    for _ in range(ctx.n(100, 1000)):
         preds.append(("secp_add_int", {"k": rng.choice(scalars), "j": rng.choice(scalars)}))
-    for k in cat + [rng.randrange(N) for _ in range(ctx.n(150, 1500))]:
+    for k in cat + [rng.randrange(N) for _ in range(ctx.n(400, 4000))]:
         preds.append(("enc_roundtrip", {"k": k}))
 
     # encodings and the malformed stream
